@@ -265,6 +265,21 @@ package tree
 //@   loop 2
 //@     assigns elems(n.br)
 
+// resolveRecur (property C07): a node is left with at most three neighbours; a detached neighbour is re-attached
+// under the new node with the length, support and p-value of the branch it hung on; the branch joining the new
+// node gets length 0 and no support
+//@ func (*tree.Tree).resolveRecur
+//@   flag noframe
+//@   flag lightcalls
+//@   requires t != nil && current != nil
+//@   ensures [at_most_three_neighbours_left] len(current.neigh) <= 3
+//@   call (*tree.Tree).ConnectNodes [detached_neighbour_goes_under_the_new_node] a1 == n2 && a2 == other && other == e.right
+//@   call (*tree.Tree).ConnectNodes [new_node_goes_under_the_current_one] a1 == n2 || (a1 == current && a2 == n2)
+//@   call (*tree.Node).delNeighbor [the_pair_forgets_each_other] (a0 == other && a1 == current) || (a0 == current && a1 == other)
+//@   call (*tree.Edge).SetLength [moved_branch_keeps_its_length_new_branch_has_length_zero] (a0.left == current && a1 == 0.0) || (a0.left != current && a1 == e.length)
+//@   call (*tree.Edge).SetSupport [moved_branch_keeps_its_support_new_branch_has_none] (a0.left == current && a1 == -1.0) || (a0.left != current && a1 == e.support)
+//@   call (*tree.Edge).SetPValue [moved_branch_keeps_its_pvalue_new_branch_has_none] (a0.left == current && a1 == -1.0) || (a0.left != current && a1 == e.pvalue)
+
 //@ define lowsupport(e *Edge, s float64) bool = e.support != -1 && e.support < s
 //@ define shortbranch(e *Edge, l float64) bool = e.length <= l
 //@ define tdepth(e *Edge) int = e.ntaxleft <= e.ntaxright ? e.ntaxleft : e.ntaxright
